@@ -8,7 +8,7 @@ import z3
 
 from pyvc.prop import Unit, Bounded
 from pyvc.values import S_at, strval, SV, STR, INT, BOOL, FRAC, BEAT, OINT, TNT, TSeq, TEnum, term, is_sym, fresh, fresh_term, coerce
-from pyvc.execu import HObj, NTVal, LoopSpec, yield_slot, seq_of_items, local_slot, PyRaise
+from pyvc.execu import loop_targets, HObj, NTVal, LoopSpec, yield_slot, seq_of_items, local_slot, PyRaise
 from pyvc import models as M
 
 LEVEL = "other"
@@ -205,13 +205,13 @@ class IterMeasure(Unit):
             return MF_unfold(p.t, m.t, lines, l) + [z3.Implies(z3.And(l >= 0, l < sub), wellformed_row(l))]
 
         def inner_inv(ex_, fr, c, vals):
-            l = term(fr.locals["l"], INT)
+            l = term(fr.locals[loop_targets(fr.fi, 0)[0]], INT)      # the row index of the enclosing loop, whatever it is called
             raw, cl = row(l)
             y0 = fr.loop_entry[(self.Q, 1)]["yielded"].t
             return [("yielded", vals["yielded"].t == z3.Concat(y0, LF()(p.t, m.t, sub, l, cl, raw, c)))]
 
         def inner_using(ex_, fr, c, vals):
-            l = term(fr.locals["l"], INT)
+            l = term(fr.locals[loop_targets(fr.fi, 0)[0]], INT)
             raw, cl = row(l)
             wf_cell = z3.Implies(z3.And(c >= 0, c < z3.Length(cl)), z3.Or(cell(cl, c) == strval("0"), valid_cell(cell(cl, c))))
             return LF_unfold(p.t, m.t, sub, l, cl, raw, c) + [wf_cell]
@@ -279,13 +279,13 @@ class NoteDataIter(Unit):
                                OFn()(secs, p_ + 1) == z3.Concat(OFn()(secs, p_), IFn()(p_, ms, z3.Length(ms))))]
 
         def inner_inv(ex_, fr, k, vals):
-            p_ = term(fr.locals["p"], INT)
+            p_ = term(fr.locals[loop_targets(fr.fi, 0)[0]], INT)       # the player index of the enclosing loop
             ms = M.str_split(S_at(secs, p_), strval(","))
             y0 = fr.loop_entry[(self.Q, 1)]["yielded"].t
             return [("yielded", vals["yielded"].t == z3.Concat(y0, IFn()(p_, ms, k)))]
 
         def inner_using(ex_, fr, k, vals):
-            p_ = term(fr.locals["p"], INT)
+            p_ = term(fr.locals[loop_targets(fr.fi, 0)[0]], INT)       # the player index of the enclosing loop
             ms = M.str_split(S_at(secs, p_), strval(","))
             return [IFn()(p_, ms, z3.IntVal(0)) == empty,
                     z3.Implies(z3.And(k >= 0, k < z3.Length(ms)),
